@@ -51,8 +51,13 @@ RULES = {
     "initializer) - the statement that clears the link is governed by tests that cover both other role flags (or by the one helper "
     "that tests all three); a test copied from a sibling that names the collection's own flag, which was just cleared, lets an "
     "initializer that is still a graph output lose its graph while it stays listed in the outputs",
+    "R12": "what is released is what is removed: in the item methods of the tracked collections (`__delitem__`, `__setitem__`, `pop`), "
+    "every read `self.data[<X>]` that finds the element(s) to release uses the very index expression that the removal itself uses "
+    "(`super().__delitem__(<K>)`, `super().__setitem__(<K>, …)`, `super().pop(<K>)`) - the parameter as given, not an index computed from it: "
+    "`slice(i, i + 1)` is not `i` (for i = -1 it is empty), so the last value leaves the list without being released and keeps its role "
+    "flag, its graph link and its reference count",
 }
-FLOORS = {"R1": 30, "R1b": 4, "R2": 70, "R3": 10, "R4": 4, "R5": 8, "R6": 40, "R7": 12, "R8": 1, "R9": 40, "R10": 1, "R11": 3}
+FLOORS = {"R1": 30, "R1b": 4, "R2": 70, "R3": 10, "R4": 4, "R5": 8, "R6": 40, "R7": 12, "R8": 1, "R9": 40, "R10": 1, "R11": 3, "R12": 3}
 EXPLANATION = (
     "Enumerates every method of collections.UserList/UserDict (parsed from the interpreter's own "
     "source) that writes self.data and checks how GraphInputs/GraphOutputs/GraphInitializers resolve "
@@ -1232,6 +1237,33 @@ def rule_r10(ctx):
     ctx.require(any(isinstance(x, ast.Attribute) and x.attr == "_graph" for x in ast.walk(g.node)), "Value.graph does not read the ownership link `_graph`")
 
 
+def rule_r12(ctx):
+    repo = ctx.repo
+    n = 0
+    for cname in ("_GraphIO", "GraphInputs", "GraphOutputs", "GraphInitializers"):
+        k = repo.cls(f"onnx_ir._graph_containers:{cname}")
+        for f in k.methods.values():
+            if isinstance(f.node, ast.Lambda) or not f.params:
+                continue
+            me = f.params[0]
+            removals = [c for c in calls_in(f) if isinstance(c.func, ast.Attribute) and c.func.attr in ("__delitem__", "__setitem__", "pop") and is_super_call(c) and c.args
+                        and isinstance(c.args[0], ast.Name) and c.args[0].id in f.params]
+            if not removals:
+                continue
+            keys = {c.args[0].id for c in removals}
+            for x in own_nodes(f.node):
+                if isinstance(x, ast.Subscript) and isinstance(x.ctx, ast.Load) and norm(x.value) == f"{me}.data":
+                    n += 1
+                    ok = isinstance(x.slice, ast.Name) and x.slice.id in keys
+                    ctx.check("R12", f"{f.local}: `{norm(x)}` reads the element(s) at the index that is removed", ok, f, x,
+                              f"`{norm(x)}` finds the element(s) to release with an index other than the one handed to `{norm(removals[0])[:50]}` ({sorted(keys)}): for some "
+                              "index values the two differ (`slice(i, i + 1)` is empty for i = -1), so a value leaves the list without its release hook - it is no longer "
+                              "listed but still says is_graph_input() / is_graph_output(), still points at the graph and cannot be given to another graph",
+                              how="index expressions of `self.data[…]` reads vs the first argument of the super() removal in the same method",
+                              construct=f"release reads {norm(x)[:40]}")
+    ctx.require(n >= 3, f"only {n} element reads found in the item methods of the tracked collections")
+
+
 def rule_r11(ctx):
     repo = ctx.repo
     roles = {"_is_graph_input": "is_graph_input", "_is_graph_output": "is_graph_output", "_is_initializer": "is_initializer"}
@@ -1299,6 +1331,7 @@ def rule_r11(ctx):
 def run(ctx):
     from ..shared import rule_s17
 
+    rule_r12(ctx)
     rule_r11(ctx)
     rule_r10(ctx)
 
